@@ -44,6 +44,7 @@ type TermInCommittee struct {
 	onCommit                        OnInCommitteeCommitCallback
 	messageFactory                  *messagesfactory.MessageFactory
 	myMemberId                      primitives.MemberId
+	instanceId                      primitives.InstanceId
 	committeeMembers                []interfaces.CommitteeMember
 	otherCommitteeMemberIds         []primitives.MemberId
 	preparedLocally                 *preparedLocallyProps
@@ -98,6 +99,7 @@ func NewTermInCommittee(log L.LHLogger, config *interfaces.Config, state *state.
 		otherCommitteeMemberIds: otherCommitteeMemberIds,
 		messageFactory:          messageFactory,
 		myMemberId:              myMemberId,
+		instanceId:              config.InstanceId,
 		logger:                  log,
 	}
 
@@ -682,6 +684,16 @@ func (tic *TermInCommittee) isViewChangeValid(expectedLeaderFromNewView primitiv
 		return errors.Errorf("sender %s is not a member of the committee", Str(sender.MemberId()))
 	}
 
+	// signatures given in another instance (virtual chain) must not count here
+	if header.InstanceId() != tic.instanceId {
+		return errors.Errorf("VIEW_CHANGE of instanceId %s but my instanceId is %s", header.InstanceId(), tic.instanceId)
+	}
+	if preparedProof != nil && len(preparedProof.Raw()) > 0 {
+		if preparedProof.PreprepareBlockRef().InstanceId() != tic.instanceId || preparedProof.PrepareBlockRef().InstanceId() != tic.instanceId {
+			return errors.Errorf("PreparedProof was signed for another instanceId, my instanceId is %s", tic.instanceId)
+		}
+	}
+
 	if !proofsvalidator.ValidatePreparedProof(tic.State.Height(), vcmView, preparedProof, tic.keyManager, tic.committeeMembers, func(view primitives.View) primitives.MemberId { return tic.calcLeaderMemberId(view) }) {
 		return fmt.Errorf("failed ValidatePreparedProof()")
 	}
@@ -707,6 +719,10 @@ func (tic *TermInCommittee) validateViewChangeVotes(targetBlockHeight primitives
 		if confirmationBlockHeight != targetBlockHeight {
 			return fmt.Errorf("confirmation of memberId %s has block height %d which is different than targetBlockHeight %d ",
 				senderMemberIdStr, confirmationBlockHeight, targetBlockHeight)
+		}
+		if confirmation.SignedHeader().InstanceId() != tic.instanceId {
+			return fmt.Errorf("confirmation of memberId %s has instanceId %s which is different than my instanceId %s",
+				senderMemberIdStr, confirmation.SignedHeader().InstanceId(), tic.instanceId)
 		}
 		confirmationView := confirmation.SignedHeader().View()
 		if confirmationView != targetView {
